@@ -9,6 +9,16 @@ rnd, base = int(sys.argv[1]), sys.argv[2]
 only = [a.upper() for a in sys.argv[3:]]
 
 FLAVOUR = {
+    12: ("Produce a change that is DIFFERENT from all of those. This time work from the CALLERS: look at how the tools and the library itself "
+         "actually use the anchored functions (the sequence of calls in the main() / driver functions of tools/*, the order in which a real run "
+         "builds, modifies, queries, writes and re-reads its objects, which optional arguments and which object kinds it passes). Make a change "
+         "that is invisible when the anchored function is called once, in isolation, on a freshly built object with default arguments - but "
+         "breaks the property in a sequence that a real run of a tool performs (for example: the object was already queried or written once, "
+         "came out of another stage, was deep-copied, had squares / rectangles / centres created or reassigned, was built from a file written "
+         "by an earlier stage, is used with the non-default argument the tool passes, or is one of several objects alive at the same time). "
+         "Say in meta.json (extra key \"pipeline\") which real call sequence you mimic and where it is in the repository. The change must be "
+         "plausible as an honest regression, must keep the 46 tests green, and must not rely on the caller rewriting the library's internal data "
+         "structures by hand or on absurd numeric scales."),
     11: ("Produce a change that is DIFFERENT from all of those. This time work from the STATEMENT: read it and its quantifier clause by clause "
          "(every 'and', every listed case, every 'including ...', every 'never' / 'always' / 'exactly'). Pick the ONE clause, or the one corner of "
          "the quantified domain, that you judge least likely to be exercised by a harness that already catches everything listed above - a clause "
